@@ -43,6 +43,7 @@ type Reader struct {
 	EOFWithData bool  // return io.EOF together with the last data
 	ZeroReads   bool  // occasionally return (0, nil), at most 3 in a row
 	FailAt      int   // offset at which the reader fails (sticky); <0 = never
+	FailErr     error // the error it fails with (default ErrInjected)
 	NoClose     bool
 
 	pos       int
@@ -58,7 +59,7 @@ func (r *Reader) Read(p []byte) (int, error) {
 	r.ReadCalls++
 	if r.failed {
 		r.AfterEOF++
-		return 0, ErrInjected
+		return 0, r.failErr()
 	}
 	if r.done {
 		r.AfterEOF++
@@ -74,7 +75,7 @@ func (r *Reader) Read(p []byte) (int, error) {
 	r.zeros = 0
 	if r.FailAt >= 0 && r.pos >= r.FailAt {
 		r.failed = true
-		return 0, ErrInjected
+		return 0, r.failErr()
 	}
 	rem := len(r.Data) - r.pos
 	if r.FailAt >= 0 && r.FailAt-r.pos < rem {
@@ -105,6 +106,22 @@ func (r *Reader) Read(p []byte) (int, error) {
 	}
 	return n, nil
 }
+
+func (r *Reader) failErr() error {
+	if r.FailErr != nil {
+		return r.FailErr
+	}
+	return ErrInjected
+}
+
+// FailureKinds are the errors real sources fail with: a private sentinel, a truncated
+// transport (io.ErrUnexpectedEOF, bare or wrapped), a closed pipe.
+var FailureKinds = []error{ErrInjected, io.ErrUnexpectedEOF, wrapped{io.ErrUnexpectedEOF}, io.ErrClosedPipe, io.ErrNoProgress}
+
+type wrapped struct{ err error }
+
+func (w wrapped) Error() string { return "transport: " + w.err.Error() }
+func (w wrapped) Unwrap() error { return w.err }
 
 // Close counts.
 func (r *Reader) Close() error {
